@@ -9,7 +9,9 @@ import (
 	"errors"
 	"fmt"
 	"hash/fnv"
+	"io"
 	"math/big"
+	"os"
 	"sort"
 	"sync"
 	"sync/atomic"
@@ -50,7 +52,14 @@ type FaultPlan struct {
 	Injectable func(kind string) bool
 	// Match, when set, decides per call (kind and storage key) instead of Injectable.
 	Match func(kind string, key []byte) bool
+	// Err is what the failing call returns (ErrInjected when nil).
+	Err error
 }
+
+// FaultErrors: the values a failing dependency may legitimately return - the library must treat
+// every one of them as a failure, whatever it is or wraps (end-of-input errors of decoders,
+// not-found errors of stores, an error with an empty message).
+var FaultErrors = []error{ErrInjected, io.EOF, io.ErrUnexpectedEOF, fmt.Errorf("decode: %w", io.ErrUnexpectedEOF), os.ErrNotExist, errors.New("not found"), errors.New(""), fmt.Errorf("trie: %w", os.ErrNotExist)}
 
 // Payability answers.
 const (
@@ -317,6 +326,9 @@ func (w *World) dep(kind string, addr, key []byte) error {
 		fp.N++
 		if fp.N == fp.FailAt || fp.N == fp.FailAt2 {
 			fp.Fired = append(fp.Fired, DepCall{Kind: kind, Addr: string(addr), Key: string(key)})
+			if fp.Err != nil {
+				return fp.Err
+			}
 			return ErrInjected
 		}
 	}
